@@ -40,19 +40,35 @@ Section M.
 
   Definition inf_dthdtS (c : Comp F) : F := c_tau c * (c_th_s c - c_th_fc c).
 
-  (* (theta0, dthdt0) after the "check drainage ability" block *)
+  (* water content needed to let dthdt0 drain: th_fc + log(A) *)
+  Definition inf_theta_log (c : Comp F) (dthdt0 : F) : F :=
+    c_th_fc c + nln num_ops (#1 + ((dthdt0 * (nexp num_ops (c_th_s c - c_th_fc c) - #1))
+                                      / (c_tau c * (c_th_s c - c_th_fc c)))).
+
+  (* (theta0, dthdt0) after the "check drainage ability" block, [fcadj] = InitCond_th_fc_Adj[ii] *)
   Definition inf_theta0 (c : Comp F) (fcadj tostore : F) : F * F :=
     let dthdtS := inf_dthdtS c in
     let dthdt0 := tostore / (#1000 * c_dz c) in
     if dthdt0 <? dthdtS then
-      let theta0 :=
-        if dthdt0 <=? #0 then fcadj
-        else c_th_fc c + nln num_ops (#1 + ((dthdt0 * (nexp num_ops (c_th_s c - c_th_fc c) - #1))
-                                              / (c_tau c * (c_th_s c - c_th_fc c)))) in
+      let theta0 := if dthdt0 <=? #0 then fcadj else inf_theta_log c dthdt0 in
       if theta0 >? c_th_s c then (c_th_s c, dthdt0)
       else if theta0 <=? fcadj then (fcadj, #0)
       else (theta0, dthdt0)
     else (c_th_s c, dthdtS).
+
+  (* the same block when th_fc_Adj may be too short: InitCond_th_fc_Adj[ii] raises IndexError only where it is
+     actually read (not when the compartment drains at its saturated ability, nor when theta0 > th_s) *)
+  Definition inf_theta0_opt (c : Comp F) (fcadj : option F) (tostore : F) : option (F * F) :=
+    match fcadj with
+    | Some a => Some (inf_theta0 c a tostore)
+    | None =>
+      let dthdtS := inf_dthdtS c in
+      let dthdt0 := tostore / (#1000 * c_dz c) in
+      if dthdt0 <? dthdtS then
+        if dthdt0 <=? #0 then None
+        else if inf_theta_log c dthdt0 >? c_th_s c then Some (c_th_s c, dthdt0) else None
+      else Some (c_th_s c, dthdtS)
+    end.
 
   (* maximum flow through the compartment, limited so that drainage + infiltration <= Ksat *)
   Definition inf_drainmax (c : Comp F) (fl dthdt0 : F) : F :=
@@ -69,9 +85,8 @@ Section M.
       if t1 >? theta0 then (theta0, (t1 - theta0) * #1000 * c_dz c) else (t1, #0)
     else (t, tostore).
 
-  (* one compartment before the back-up loop: (thnew[ii], FluxOut[ii], ToStore, excess) *)
-  Definition inf_comp (c : Comp F) (fcadj t fl tostore : F) : F * F * F * F :=
-    let td := inf_theta0 c fcadj tostore in
+  (* one compartment before the back-up loop, given (theta0, dthdt0): (thnew[ii], FluxOut[ii], ToStore, excess) *)
+  Definition inf_comp_td (c : Comp F) (td : F * F) (t fl tostore : F) : F * F * F * F :=
     let drainmax := inf_drainmax c fl (snd td) in
     let st := inf_store c t (fst td) tostore in
     let fl' := fl + snd st in
@@ -79,30 +94,39 @@ Section M.
     let excess := if excess <? #0 then #0 else excess in
     (fst st, fl', snd st - excess, excess).
 
+  Definition inf_comp (c : Comp F) (fcadj : option F) (t fl tostore : F) : option (F * F * F * F) :=
+    match inf_theta0_opt c fcadj tostore with
+    | None => None
+    | Some td => Some (inf_comp_td c td t fl tostore)
+    end.
+
   Definition inf_finish (done : list Done) (th fl : list F) : list F * list F :=
     (rev_append (map d_th done) th, rev_append (map d_fl done) fl).
 
   (* `while ToStore > 0 and ii < nComp-1` (nComp = len(th)); result ((th, FluxOut), ToStore, Runoff);
-     None = IndexError on a profile / th_fc_Adj / FluxOut array shorter than th *)
+     None = IndexError on a profile / FluxOut array shorter than th, or on a th_fc_Adj element that is read but missing *)
   Fixpoint inf_loop (p : list (Comp F)) (fc th fl : list F) (done : list Done) (tostore runoff : F)
            {struct th} : option (list F * list F * F * F) :=
     match th with
     | [] => Some (inf_finish done th fl, tostore, runoff)
     | t :: th' =>
       if tostore >? #0 then
-        match p, fc, fl with
-        | c :: p', a :: fc', f :: fl' =>
-          let r := inf_comp c a t f tostore in
-          let t1 := fst (fst (fst r)) in
-          let f1 := snd (fst (fst r)) in
-          let ts1 := snd (fst r) in
-          let ex := snd r in
-          let done1 := (c, t1, f1) :: done in
-          if ex >? #0 then
-            let b := inf_backup ex done1 in
-            inf_loop p' fc' th' fl' (fst b) ts1 (if snd b >? #0 then runoff + snd b else runoff)
-          else inf_loop p' fc' th' fl' done1 ts1 runoff
-        | _, _, _ => None
+        match p, fl with
+        | c :: p', f :: fl' =>
+          match inf_comp c (hd_error fc) t f tostore with
+          | None => None
+          | Some r =>
+            let t1 := fst (fst (fst r)) in
+            let f1 := snd (fst (fst r)) in
+            let ts1 := snd (fst r) in
+            let ex := snd r in
+            let done1 := (c, t1, f1) :: done in
+            if ex >? #0 then
+              let b := inf_backup ex done1 in
+              inf_loop p' (tl fc) th' fl' (fst b) ts1 (if snd b >? #0 then runoff + snd b else runoff)
+            else inf_loop p' (tl fc) th' fl' done1 ts1 runoff
+          end
+        | _, _ => None
         end
       else Some (inf_finish done th fl, tostore, runoff)
     end.
